@@ -1,6 +1,7 @@
 """C03 HLL per-slot max in every mode and width (DESIGN.md section 5 C03)."""
 import hll_rules as H
 import chains
+import generic_lints
 
 
 def run(facts, tier):
@@ -15,6 +16,7 @@ def run(facts, tier):
         ("coupon codec", H.coupon_constants, 1, "pair/getLow26/getValue use one key width"),
         ("canonical chains", lambda fa: chains.obligations(fa, ["hll"]), 11, "typed update overloads follow the cross-language canonicalisation contract"),
         ("mode byte", H.mode_byte, 1, "mode byte encode/decode are inverse"),
+        ("duplicate operands", lambda fa: generic_lints.duplicate_conjuncts(fa, ('hll/',)), 2, "no logical chain tests the same operand twice (copy-paste of the wrong peer)"),
     ):
         o = f(facts)
         obs += o
